@@ -22,6 +22,19 @@ Extension (stored files and further entry points of the anchored code):
     output file absent / empty / holding old content;
   * the CLI verify step with 1..4 PSM files in one call and the `--verify_pin` option (absent, on, off),
     files stored with any of the three line ends (also with carriage returns inside: model only).
+
+Second extension (GAPS-C19.md, "Second pass"):
+  * every call of `pin_to_valid_tsv` writes into a recording object: the sequence of `write` calls (also the
+    ones made before an exception) is compared with the model `pinToTsvWrites`; the public functions are called
+    by keyword, positionally and with their defaults omitted;
+  * document-level validity: `is_valid_tsv` on a document vs "no DefaultDirection line and one protein per row"
+    computed from the document; losslessness read backwards (protein column of the output split again);
+  * what is on disk when the command line tool / the CLI verify step raise (output file, PIN file, `<pin>.tsv`),
+    next to a stale `<pin>.tsv`;
+  * size: documents whose only ragged row comes late (after 300 / 4 200 lines; thorough: up to 66 000), rows with thousands of
+    proteins, fields longer than 64 KiB, hundreds of columns; line-break-like characters inside fields;
+  * `convert_line_pin_to_tsv` called directly with other separators, positionally, on fields holding the other
+    separator characters.
 """
 from __future__ import annotations
 
@@ -49,37 +62,93 @@ RULE = (
     "also stored as a file with line ends in {LF, CRLF, CR} and converted by the command line tool "
     "pin_to_tsv.main() with/without --sep_column/--sep_protein and an absent/empty/non-empty output file, its "
     "header line given to parse_pin_header_columns; (e) groups of 1..4 files (documents and raw texts) through "
-    "one call of the CLI verify step with --verify_pin absent/on/off"
+    "one call of the CLI verify step with --verify_pin absent/on/off; second extension: (f) every call of "
+    "pin_to_valid_tsv writes into a recording object (sequence of write() calls, also before an exception, vs the "
+    "model), public functions called by keyword / by position / with defaults omitted; (g) is_valid_tsv on a document "
+    "vs 'no DefaultDirection line and one protein per row' computed from the document, protein column of the output "
+    "split again vs the PIN fields; (h) files and <pin>.tsv on disk after the tool / the CLI step also when they raise, "
+    "next to a stale <pin>.tsv; (i) documents whose only ragged row comes after 300 / 4 200 lines (thorough: up to "
+    "66 000), long rectangular documents, rows with 3 000 proteins, a field of 70 000 characters, 600 columns "
+    "(thorough: 20 000 proteins, 1.1 M characters, 5 000 columns); line-break-like characters (VT, FS, RS, NEL, "
+    "U+2028) inside fields; (j) convert_line_pin_to_tsv called directly with other separators, positionally, on "
+    "fields holding the other separator characters"
 )
 
 PADS = [" ", "\t", "\r", "\x0b", "\x0c", " ", " ", "\x1f", "  "]
-FIELD_CHARS = list("abcXYZ019|._-:;, ") + ["é", "β", " ", "中", "\U0001f600", "\r"]
+FIELD_CHARS = list("abcXYZ019|._-:;, ") + ["é", "β", " ", "中", "\U0001f600", "\r",
+                                          "\x0b", "\x1c", "\x1e", "\x85", "\u2028"]  # str.splitlines() breaks at these
 NAMES = ["SpecId", "Label", "ScanNr", "ExpMass", "f1", "f2", "lnrSp", "Peptide", "Charge 2", "Proteins"]
 
 
 # ----------------------------------------------------------------------------
 # the real code
 # ----------------------------------------------------------------------------
-def impl_convert(text, sep_c, sep_p):
+class _Recorder:
+    """an output object that only records the `write` calls (all the real function uses)"""
+
+    def __init__(self):
+        self.writes = []
+
+    def write(self, x):
+        self.writes.append(x)
+        return len(x)
+
+
+CALL_STYLES = ["kw", "kw", "pos", "default"]
+UNFOLD_LEAN_ROWS = 60      # larger documents: `unfold_text` (python) only, it has been validated on the small ones
+FS_MODEL_CHARS = 150000    # stored files larger than this: the on-disk state is compared with the spec only
+
+
+def impl_convert_w(text, sep_c, sep_p, style="kw"):
+    """-> (result as before, list of the strings written until the function returned or raised)"""
     from mokapot.parsers.pin_to_tsv import pin_to_valid_tsv
 
-    out = io.StringIO()
+    out = _Recorder()
+    fin = io.StringIO(text)
     try:
-        pin_to_valid_tsv(io.StringIO(text), out, sep_column=sep_c, sep_protein=sep_p)
+        if style == "default" and sep_c == "\t" and sep_p == ":":
+            pin_to_valid_tsv(fin, out)
+        elif style == "pos":
+            pin_to_valid_tsv(fin, out, sep_c, sep_p)
+        else:
+            pin_to_valid_tsv(fin, out, sep_column=sep_c, sep_protein=sep_p)
     except StopIteration:
-        return "reject-stop"
+        return "reject-stop", out.writes
     except AssertionError:
-        return "reject-assert"
-    return ("ok", out.getvalue())
+        return "reject-assert", out.writes
+    return ("ok", "".join(out.writes)), out.writes
 
 
-def impl_valid(text, sep_c):
+def impl_convert(text, sep_c, sep_p, style="kw"):
+    return impl_convert_w(text, sep_c, sep_p, style)[0]
+
+
+def impl_valid(text, sep_c, style="kw"):
     from mokapot.parsers.pin_to_tsv import is_valid_tsv
 
     try:
+        if style == "default" and sep_c == "\t":
+            return bool(is_valid_tsv(io.StringIO(text)))
+        if style == "pos":
+            return bool(is_valid_tsv(io.StringIO(text), sep_c))
         return bool(is_valid_tsv(io.StringIO(text), sep_column=sep_c))
     except StopIteration:
         return "reject-stop"
+
+
+def compare_writes(chk, info, got, writes, r):
+    """the sequence of write() calls vs the model `pinToTsvWrites` (only called when the implementation's result
+    equals the model's `pin2tsv`, so for a call that returned the concatenation is known to agree: the lengths of
+    the single writes are compared; for a call that raised also what had been written)"""
+    v = dec(r)
+    m_len = [int(x) for x in (v[0] if isinstance(v[0], list) else [v[0]])]
+    m_err, m_text = v[1], a_str(v[2])
+    err = got if isinstance(got, str) else "none"
+    chk.count("writes", ("raised-after-%d" % len(writes)) if isinstance(got, str) else "returned")
+    impl = [[len(w) for w in writes], err, "" if err == "none" else "".join(writes)]
+    if impl != [m_len, m_err, m_text]:
+        chk.corr_break("pin2tsvwrites", dict(info, impl=impl, model=[m_len, m_err, m_text],
+                                             impl_writes=writes[:5]))
 
 
 class _StopAfterVerify(Exception):
@@ -138,9 +207,10 @@ def _read_raw(path):
         return f.read()
 
 
-def impl_tool_main(raw, opt_c, opt_p, old, tmpdir, k):
+def impl_tool_main_fs(raw, opt_c, opt_p, old, tmpdir, k):
     """the command line tool of pin_to_tsv.py: `main()` with sys.argv = path_in path_out [--sep_column c]
-    [--sep_protein p]; `old` = previous content of the output file (None: the file does not exist)"""
+    [--sep_protein p]; `old` = previous content of the output file (None: the file does not exist).
+    -> (status 'ok' | 'reject-…', content of the output file afterwards or None when it does not exist)"""
     import sys
     import mokapot.parsers.pin_to_tsv as T
 
@@ -156,13 +226,15 @@ def impl_tool_main(raw, opt_c, opt_p, old, tmpdir, k):
         argv += ["--sep_protein", opt_p]
     saved = sys.argv
     sys.argv = argv
+    status = "ok"
     try:
-        T.main()
-        return ("ok", _read_raw(p_out))
-    except StopIteration:
-        return "reject-stop"
-    except AssertionError:
-        return "reject-assert"
+        try:
+            T.main()
+        except StopIteration:
+            status = "reject-stop"
+        except AssertionError:
+            status = "reject-assert"
+        return status, (_read_raw(p_out) if os.path.exists(p_out) else None)
     finally:
         sys.argv = saved
         for fn in (p_in, p_out):
@@ -170,37 +242,72 @@ def impl_tool_main(raw, opt_c, opt_p, old, tmpdir, k):
                 os.unlink(fn)
 
 
-def impl_cli_verify_files(raws, flag, tmpdir, k):
+def tool_result(fs):
+    """the result form of the first extension: ("ok", content) or the refusal"""
+    return ("ok", fs[1]) if fs[0] == "ok" else fs[0]
+
+
+def impl_tool_main(raw, opt_c, opt_p, old, tmpdir, k):
+    return tool_result(impl_tool_main_fs(raw, opt_c, opt_p, old, tmpdir, k))
+
+
+def compare_tool_fs(chk, info, fs, r):
+    """output file of the tool afterwards (also when it raised) vs `toolMainFs`"""
+    v = dec(r)
+    model = [a_str(v[0]), "ok" if v[1] == "none" else v[1]]
+    chk.count("tool-fs", fs[0] if fs[0] != "ok" else "returned")
+    if [fs[1], fs[0]] != model:
+        chk.corr_break("toolmainfs", dict(info, impl=[fs[1], fs[0]], model=model))
+
+
+def impl_cli_verify_fs(raws, flag, tmpdir, k, stales=None):
     """several PSM files through ONE call of the real CLI, stopped right after the verify step;
-    flag: None = option absent, otherwise the value given to --verify_pin (argparse type=bool: "" is off)"""
+    flag: None = option absent, otherwise the value given to --verify_pin (argparse type=bool: "" is off);
+    stales[j]: content of a `<pin>.tsv` that exists before the call (None: absent).
+    -> (status 'ok' | 'reject-…' | 'no-stop', [content of every PIN file], [content of every <pin>.tsv or None])"""
     import mokapot.mokapot as M
 
     def stop(*a, **kw):
         raise _StopAfterVerify()
 
+    stales = list(stales) if stales is not None else [None] * len(raws)
     paths = [os.path.join(tmpdir, f"multi{k}_{j}.pin") for j in range(len(raws))]
-    for pth, raw in zip(paths, raws):
+    for pth, raw, st in zip(paths, raws, stales):
         _write_raw(pth, raw)
+        if st is not None:
+            _write_raw(pth + ".tsv", st)
     argv = list(paths) + ["--dest_dir", tmpdir, "--verbosity", "0"]
     if flag is not None:
         argv += ["--verify_pin", flag]
     saved = M.read_pin
     M.read_pin = stop
+    status = "no-stop"
     try:
-        M.main(argv)
-        return "no-stop"
-    except _StopAfterVerify:
-        return ("ok", [_read_raw(pth) for pth in paths])
-    except StopIteration:
-        return "reject-stop"
-    except AssertionError:
-        return "reject-assert"
+        try:
+            M.main(argv)
+        except _StopAfterVerify:
+            status = "ok"
+        except StopIteration:
+            status = "reject-stop"
+        except AssertionError:
+            status = "reject-assert"
+        return (status, [_read_raw(pth) if os.path.exists(pth) else None for pth in paths],
+                [_read_raw(pth + ".tsv") if os.path.exists(pth + ".tsv") else None for pth in paths])
     finally:
         M.read_pin = saved
         for pth in paths:
             for fn in (pth, pth + ".tsv"):
                 if os.path.exists(fn):
                     os.unlink(fn)
+
+
+def cli_result(fs):
+    """the result form of the first extension"""
+    return ("ok", fs[1]) if fs[0] == "ok" else fs[0]
+
+
+def impl_cli_verify_files(raws, flag, tmpdir, k):
+    return cli_result(impl_cli_verify_fs(raws, flag, tmpdir, k))
 
 
 def _mkdtemp():
@@ -312,6 +419,9 @@ def gen_doc(rng, big=False, n_rows_forced=None):
                        old=rng.choice([None, None, "", "old\tcontent\nof an earlier run\n"]))
     doc["hdr_default"] = sep_c == "\t" and rng.random() < 0.5
     doc["keep_cr"] = rng.random() < 0.25
+    # second extension: how the public functions are called, a stale <pin>.tsv next to the stored file
+    doc["call"] = rng.choice(CALL_STYLES)
+    doc["stale"] = rng.choice([None, None, None, "", "STALE\tleft over\nby an interrupted run\n"])
     return doc
 
 
@@ -321,6 +431,55 @@ LONG_SIZES = [255, 256, 257, 999, 1000, 1001, 1999, 2000, 4095, 4096, 4097, 9999
 
 def gen_long_docs(rng, sizes=LONG_SIZES):
     return [gen_doc(rng, big=False, n_rows_forced=n) for n in sizes]
+
+
+def gen_shape_docs(rng, quick=True):
+    """second extension — sizes no random document reaches (all tab / ":" so that they also go through the CLI):
+      late:   compact documents that are rectangular except for ONE row with several proteins which comes last
+              (or last but one), after 300 / 4 200 lines (thorough: up to 66 000) — a validity test that only samples the beginning of a
+              file, or a converter that treats the tail differently, is only seen here;
+      rect:   long rectangular documents (valid: must be left alone), with and without a late DefaultDirection-like id;
+      wide:   one row with thousands of proteins, one field longer than 64 KiB, hundreds of columns."""
+    def base(n_pre, n_post, rows, dd=None, layout="shape"):
+        cols = [f"c{i}" for i in range(n_pre)] + ["Proteins"] + [f"d{i}" for i in range(n_post)]
+        return dict(hpadL="", cols=cols, hpadR="", dd=dd, rows=rows, trailing=rng.random() < 0.5, sepC="\t", sepP=":",
+                    layout=layout, term=rng.choice(TERMS), tool=dict(pass_c=rng.random() < 0.5, pass_p=rng.random() < 0.5,
+                                                                       old=rng.choice([None, "", "old\n"])),
+                    hdr_default=rng.random() < 0.5, keep_cr=False, call=rng.choice(CALL_STYLES),
+                    stale=rng.choice([None, None, "stale\n"]))
+
+    def row(i, n_pre, n_post, k, flen=2):
+        tok = lambda: "".join(rng.choice("abcXYZ019|._-") for _ in range(rng.randint(1, flen)))
+        return ["", [f"{i}{tok()}" for _ in range(n_pre)], [f"P{tok()}" for _ in range(k)],
+                [f"{tok()}x" for _ in range(n_post)], ""]
+
+    docs = []
+    for n, back in ([(300, 0), (4200, 0)] if quick else
+                    [(130, 0), (1001, 0), (1025, 1), (1500, 0), (4097, 0), (4100, 3), (8193, 0), (12000, 0), (12000, 1),
+                     (20001, 0), (66000, 0)]):
+        n_pre, n_post = rng.choice([(1, 0), (0, 1), (2, 1), (0, 0)])
+        rows = [row(i, n_pre, n_post, 1) for i in range(n)]
+        rows[n - 1 - back] = row(n - 1 - back, n_pre, n_post, rng.choice([2, 3]))
+        docs.append(base(n_pre, n_post, rows, layout="late-ragged"))
+    for n in ([1200] if quick else [1000, 2500, 4096, 10000, 30000]):
+        n_pre, n_post = rng.choice([(1, 0), (1, 1), (2, 0)])
+        docs.append(base(n_pre, n_post, [row(i, n_pre, n_post, 1) for i in range(n)], layout="long-rectangular"))
+    # wide rows / long fields / many columns
+    ks = [3000] if quick else [300, 3000, 20000]
+    for k in ks:
+        n_pre, n_post = rng.choice([(1, 1), (0, 2), (2, 0)])
+        rows = [row(0, n_pre, n_post, 1), row(1, n_pre, n_post, k, flen=6), row(2, n_pre, n_post, 2)]
+        docs.append(base(n_pre, n_post, rows, dd=rng.choice([None, "DefaultDirection\t-"]), layout="many-proteins"))
+    for flen in ([70000] if quick else [8200, 70000, 1100000]):
+        n_pre, n_post = 1, 1
+        rows = [row(0, n_pre, n_post, 2), row(1, n_pre, n_post, 2)]
+        rows[1][rng.choice([1, 2, 3])][0] = "L" + "".join(rng.choice("abcXYZ019|._- ") for _ in range(flen)) + "e"
+        docs.append(base(n_pre, n_post, rows, layout="long-field"))
+    for nc in ([600] if quick else [70, 600, 5000]):
+        n_pre, n_post = nc // 2, nc - nc // 2
+        docs.append(base(n_pre, n_post, [row(i, n_pre, n_post, rng.choice([1, 2, 4])) for i in range(3)],
+                         layout="many-columns"))
+    return docs
 
 
 TERMS = ["\n", "\n", "\r\n", "\r\n", "\r"]
@@ -385,6 +544,34 @@ def valid_criterion(text, sep_c):
     return all(l.count(sep_c) == lines[0].count(sep_c) for l in lines[1:])
 
 
+def doc_pads_free(d):
+    s = d["sepC"]
+    return s not in d["hpadL"] and s not in d["hpadR"] and all(s not in r[0] and s not in r[4] for r in d["rows"])
+
+
+def doc_dd_plain(d):
+    return d["dd"] is None or d["dd"].startswith("DefaultDirection")
+
+
+def doc_valid_spec(d):
+    """the validity clause of the statement, read off the document: no DefaultDirection line, all lines as many
+    fields as the header (= one protein per row)"""
+    return d["dd"] is None and all(len(r[2]) == 1 for r in d["rows"])
+
+
+def doc_prots_free(d):
+    p = d["sepP"]
+    return len(p) == 1 and all(p not in x for r in d["rows"] for x in r[2])
+
+
+def unfold_text(text, sep_c, sep_p, idx):
+    """the data rows of a rectangular text with the protein column split again at the protein separator"""
+    rows = [l.split(sep_c) for l in text.split("\n")[1:-1]] if text.endswith("\n") else None
+    if rows is None:
+        return None
+    return [r[:idx] + (r[idx].split(sep_p) if idx < len(r) else [""]) + r[idx + 1:] for r in rows]
+
+
 def doc_key(d):
     pads = (bool(d["hpadL"] or d["hpadR"]), tuple(bool(r[0] or r[4]) for r in d["rows"]))
     return (len(d["cols"]), d["cols"].index("Proteins"), tuple(len(r[2]) for r in d["rows"]), d["dd"] is not None,
@@ -401,24 +588,31 @@ def eval_docs(chk, docs, cli=False, tmpdir=None, files=0):
     lines = []
     for d in docs:
         text = render_pin(d)
-        lines.append(req("spec-C19", d["sepC"], d["sepP"], doc_wire(d)))
+        lines.append(req("spec-C19-all", d["sepC"], d["sepP"], doc_wire(d)))  # = spec-C19 ++ spec-C19-doc
         lines.append(req("pin2tsv", d["sepC"], d["sepP"], text))
         lines.append(req("validtsv", d["sepC"], text))
         lines.append(req("validspec", d["sepC"], text))
+        lines.append(req("pin2tsvwrites", d["sepC"], d["sepP"], text))
+        # the Lean unfolding of the expected text only validates the python restatement `unfold_text`: small documents
+        lines.append(req("unfoldtable", d["sepC"], d["sepP"], d["cols"].index("Proteins"), expected_text(d))
+                     if (doc_prots_free(d) and len(d["rows"]) <= UNFOLD_LEAN_ROWS) else req("validspec", "\t", ""))
     resp = common.driver_batch(lines)
     later = []
     file_items = []
+    NREQ = 6
     for k, d in enumerate(docs):
         text = render_pin(d)
-        sp = dec(resp[4 * k])
+        sp = dec(resp[NREQ * k])
         wf, sep_ok, first_ok = a_bool(sp[0]), a_bool(sp[1]), a_bool(sp[2])
         lean_pin, lean_exp = a_str(sp[3]), a_str(sp[4])
         lean_table = deep(a_str, sp[5])
-        m_conv = resp[4 * k + 1].strip()
+        m_conv = resp[NREQ * k + 1].strip()
         m_conv = m_conv if m_conv.startswith("reject") else ("ok", a_str(m_conv))
-        m_valid = resp[4 * k + 2].strip()
+        m_valid = resp[NREQ * k + 2].strip()
         m_valid = m_valid if m_valid.startswith("reject") else a_bool(m_valid)
-        s_valid = a_bool(resp[4 * k + 3].strip())
+        s_valid = a_bool(resp[NREQ * k + 3].strip())
+        sd = [a_bool(x) for x in sp[6:12]]
+        style = d.get("call", "kw")
         if lean_pin != text:
             raise RuntimeError(f"harness/driver rendering mismatch: {text!r} vs {lean_pin!r}")
         if not wf:
@@ -431,8 +625,12 @@ def eval_docs(chk, docs, cli=False, tmpdir=None, files=0):
         if lean_exp != exp or lean_table != expected_table(d):
             raise RuntimeError(f"spec restatement mismatch (python vs Lean): {exp!r} vs {lean_exp!r}")
         jd = jsonable(d)
-        got = impl_convert(text, d["sepC"], d["sepP"])
-        v_in = impl_valid(text, d["sepC"])
+        # python restatements of the document-level predicates vs Lean
+        if sd[:4] != [True, doc_pads_free(d), doc_dd_plain(d), doc_valid_spec(d)] or sd[5] != doc_prots_free(d):
+            raise RuntimeError(f"document-level restatement mismatch (python vs Lean) on {text!r}: {sd}")
+        got, writes = impl_convert_w(text, d["sepC"], d["sepP"], style)
+        v_in = impl_valid(text, d["sepC"], style)
+        chk.count("call-style", style if (style != "default" or (d["sepC"] == "\t" and d["sepP"] == ":")) else "kw")
         chk.case(None, doc_key(d) if doc_nontrivial(d) else None,
                  sample=dict(input=text, impl=got[1] if isinstance(got, tuple) else got, expected=exp,
                              impl_valid_input=v_in))
@@ -460,6 +658,21 @@ def eval_docs(chk, docs, cli=False, tmpdir=None, files=0):
             elif len(il) != len(el):
                 clause = "line count differs (one line per PSM, DefaultDirection dropped)"
             chk.spec_violation("convert-spec", dict(case=jd, input=text, impl=out, expected=exp, clause=clause))
+        # -- lossless, read backwards: the protein column of the output split again gives the PIN fields
+        if sd[5]:
+            idx_p = d["cols"].index("Proteins")
+            want_fields = [pre + prots + post for _, pre, prots, post, _ in d["rows"]]
+            if len(d["rows"]) <= UNFOLD_LEAN_ROWS and (unfold_text(exp, d["sepC"], d["sepP"], idx_p) != want_fields
+                                                       or deep(a_str, dec(resp[NREQ * k + 5])) != want_fields):
+                raise RuntimeError(f"unfold restatement mismatch (python vs Lean) on {text!r}")
+            chk.count("lossless-unfold", "checked")
+            if not bad and unfold_text(out, d["sepC"], d["sepP"], idx_p) != want_fields:
+                bad = True
+                chk.spec_violation("lossless", dict(case=jd, input=text, impl=out, expected=want_fields,
+                                                    clause="splitting the protein column of the output again does "
+                                                           "not give back the fields of the PIN rows"))
+        else:
+            chk.count("lossless-unfold", "not promised (separator inside a protein name / not one character)")
         if not bad and sep_ok and first_ok:
             v_out = impl_valid(out, d["sepC"])
             if v_out is not True:
@@ -480,11 +693,28 @@ def eval_docs(chk, docs, cli=False, tmpdir=None, files=0):
             bad = True
             chk.spec_violation("valid-iff", dict(case=jd, input=text, impl=v_in, expected=crit,
                                                  clause="is_valid_tsv differs from: rectangular and no DefaultDirection line"))
+        # -- the same clause at document level (C19_valid_doc_iff): computed from the document, not from the text
+        if not sd[1]:
+            chk.count("valid-doc", "not promised: padding holds the column separator")
+        elif not sd[2]:
+            chk.count("valid-doc", "not promised: whitespace before DefaultDirection")
+            if v_in is True:
+                chk.count("observation", "file with a (padded) DefaultDirection line reported valid")
+            if v_in != sd[4] and not bad:
+                chk.corr_break("docvalid", dict(case=jd, input=text, impl=v_in, model=sd[4]))
+        else:
+            chk.count("valid-doc", "valid" if sd[3] else ("DD line" if d["dd"] is not None else "ragged"))
+            if v_in != sd[3]:
+                bad = True
+                chk.spec_violation("valid-doc", dict(case=jd, input=text, impl=v_in, expected=sd[3],
+                                                     clause="is_valid_tsv(document) differs from: no DefaultDirection "
+                                                            "line and one protein in every row"))
         if not bad:
             if got != m_conv:
                 chk.corr_break("pin2tsv", dict(case=jd, input=text, impl=got, model=m_conv))
             if v_in != m_valid:
                 chk.corr_break("validtsv", dict(case=jd, input=text, impl=v_in, model=m_valid))
+            compare_writes(chk, dict(case=jd, input=text), got, writes, resp[NREQ * k + 4])
         if cli and d["sepC"] == "\t" and d["sepP"] == ":" and "\r" not in text:
             later.append((d, text, exp, v_in))
         if tmpdir is not None and files and k % files == 0:
@@ -507,6 +737,12 @@ def eval_cli(chk, items, tmpdir):
         if got != want:
             chk.spec_violation("cli-verify", dict(case=jsonable(d), input=text, impl=got, expected=want,
                                                   clause="file after the verify step is not (input if valid else conversion)"))
+        elif doc_pads_free(d) and doc_dd_plain(d) and got != ("ok", text if doc_valid_spec(d) else exp):
+            # C19_verify_step_doc: the decision read off the document, not taken from is_valid_tsv
+            chk.spec_violation("cli-verify-doc", dict(case=jsonable(d), input=text, impl=got,
+                                                      expected=("ok", text if doc_valid_spec(d) else exp),
+                                                      clause="file after the verify step is not (input if the document has no "
+                                                             "DefaultDirection line and one protein per row, else its table)"))
         elif got != model:
             chk.corr_break("verifystep", dict(case=jsonable(d), input=text, impl=got, model=model))
 
@@ -541,12 +777,17 @@ def eval_files(chk, items, tmpdir, groups=False):
         lines.append(req("headercols", d["sepC"], it["header"]))
         lines.append(req("toolmain", None if it["opt_c"] is None else [it["opt_c"]],
                          None if it["opt_p"] is None else [it["opt_p"]], it["raw"], tool["old"] or ""))
+        lines.append(req("toolmainfs", None if it["opt_c"] is None else [it["opt_c"]],
+                         None if it["opt_p"] is None else [it["opt_p"]], it["raw"],
+                         None if tool["old"] is None else [tool["old"]])
+                     if len(it["raw"]) <= FS_MODEL_CHARS else req("validspec", "\t", ""))
     resp = common.driver_batch(lines)
     eligible = []
+    FREQ = 4
     for k, it in enumerate(items):
         d = it["doc"]
         jd = jsonable(d)
-        sp = dec(resp[3 * k])
+        sp = dec(resp[FREQ * k])
         wf, nocr, term_ok = a_bool(sp[0]), a_bool(sp[1]), a_bool(sp[2])
         lean_raw, lean_pin = a_str(sp[3]), a_str(sp[4])
         it["first_ok"], it["exp"] = a_bool(sp[5]), expected_text(d)
@@ -567,7 +808,7 @@ def eval_files(chk, items, tmpdir, groups=False):
         elif nocr and py_read != text:
             raise RuntimeError(f"universal-newline restatement mismatch: {it['raw']!r} read as {py_read!r}")
         # -- parse_pin_header_columns
-        m_hdr = resp[3 * k + 1].strip()
+        m_hdr = resp[FREQ * k + 1].strip()
         m_hdr = m_hdr if m_hdr.startswith("reject") else [int(x) for x in dec(m_hdr)]
         got_hdr = impl_header_cols(it["header"], d["sepC"], it["hdr_default"])
         want_hdr = [len(d["cols"]), d["cols"].index("Proteins")]
@@ -582,8 +823,9 @@ def eval_files(chk, items, tmpdir, groups=False):
         elif got_hdr != m_hdr:
             chk.corr_break("headercols", dict(hinfo, impl=got_hdr, model=m_hdr))
         # -- the command line tool
-        m_tool = _model_text(resp[3 * k + 2])
-        got = impl_tool_main(it["raw"], it["opt_c"], it["opt_p"], it["tool"]["old"], tmpdir, k)
+        m_tool = _model_text(resp[FREQ * k + 2])
+        tool_fs = impl_tool_main_fs(it["raw"], it["opt_c"], it["opt_p"], it["tool"]["old"], tmpdir, k)
+        got = tool_result(tool_fs)
         chk.case(None, ("tool",) + doc_key(d) + (it["term"], it["opt_c"] is None, it["opt_p"] is None,
                                                  it["tool"]["old"] is None))
         chk.count("tool-main", "spec" if nocr else "model-only(inner CR)")
@@ -596,6 +838,8 @@ def eval_files(chk, items, tmpdir, groups=False):
                                                         "of the stored document"))
         elif got != m_tool:
             chk.corr_break("toolmain", dict(tinfo, impl=got, model=m_tool))
+        elif len(it["raw"]) <= FS_MODEL_CHARS:
+            compare_tool_fs(chk, tinfo, tool_fs, resp[FREQ * k + 3])
         if d["sepC"] == "\t" and d["sepP"] == ":":
             eligible.append(it)
     if groups and eligible:
@@ -610,27 +854,46 @@ def eval_files(chk, items, tmpdir, groups=False):
             if known:
                 expected = [it["raw"] if valid_criterion(render_pin(it["doc"]), "\t") is True else it["exp"] for it in part]
             grp.append(dict(kind="files", files=[it["raw"] for it in part], flag=flag, expected=expected,
-                            family="docs"))
+                            family="docs", stales=[it["doc"].get("stale") for it in part]))
         eval_cli_files(chk, grp, tmpdir)
 
 
 def eval_cli_files(chk, groups, tmpdir):
-    """groups of stored files through ONE call of the real CLI verify step vs spec vs model"""
-    resp = common.driver_batch([req("verifyfiles", g["flag"] != "", list(g["files"])) for g in groups])
-    for k, (g, r) in enumerate(zip(groups, resp)):
-        r = r.strip()
+    """groups of stored files through ONE call of the real CLI verify step vs spec vs model; second extension:
+    a stale `<pin>.tsv` may exist next to a file (g["stales"]), and the state of all paths afterwards — also when
+    the step raised — is compared with `verifyFilesFs`"""
+    lines = []
+    for g in groups:
+        stales = list(g.get("stales") or [None] * len(g["files"]))
+        g["stales"] = stales
+        lines.append(req("verifyfiles", g["flag"] != "", list(g["files"])))
+        g["fs_model"] = sum(len(f) for f in g["files"]) <= FS_MODEL_CHARS
+        lines.append(req("verifyfilesfs", g["flag"] != "",
+                         [[f, None if st is None else [st]] for f, st in zip(g["files"], stales)])
+                     if g["fs_model"] else req("validspec", "\t", ""))
+    resp = common.driver_batch(lines)
+    for k, g in enumerate(groups):
+        r = resp[2 * k].strip()
         model = r if r.startswith("reject") else ("ok", deep(a_str, dec(r)))
         if isinstance(model, tuple) and not isinstance(model[1], list):
             model = ("ok", [model[1]])
+        m_fs = None
+        if g["fs_model"]:
+            mv = dec(resp[2 * k + 1])
+            m_state = mv[0] if isinstance(mv[0], list) else [mv[0]]
+            m_fs = ["ok" if mv[1] == "none" else mv[1], [a_str(x[0]) for x in m_state],
+                    [None if x[1] == "none" else a_str(x[1][0]) for x in m_state]]
         on = g["flag"] != ""
-        got = impl_cli_verify_files(g["files"], g["flag"], tmpdir, k)
+        fs = impl_cli_verify_fs(g["files"], g["flag"], tmpdir, k, g["stales"])
+        got = cli_result(fs)
         terms = tuple(sorted({("CRLF" if "\r\n" in f else "CR" if "\r" in f else "LF") for f in g["files"]}))
-        chk.case(None, ("cli-files", g.get("family"), tuple(g["files"]), g["flag"]))
+        chk.case(None, ("cli-files", g.get("family"), tuple(g["files"]), g["flag"], tuple(g["stales"])))
         chk.count("cli-files", f"{g.get('family')}:{len(g['files'])}")
         chk.count("cli-verify-flag", {None: "absent", "": "off"}.get(g["flag"], "on(" + str(g["flag"]) + ")"))
         chk.count("cli-files-line-ends", "+".join(terms))
+        chk.count("cli-stale-tsv", sum(st is not None for st in g["stales"]))
         info = dict(kind="files", files=list(g["files"]), flag=g["flag"], expected=g.get("expected"),
-                    family=g.get("family"))
+                    family=g.get("family"), stales=list(g["stales"]))
         if isinstance(got, str):
             chk.reject("cli-verify-files:" + got)
             if not on:
@@ -641,10 +904,15 @@ def eval_cli_files(chk, groups, tmpdir):
                                                             clause="verify step raised on well-formed PIN files"))
             elif got != model:
                 chk.corr_break("verifyfiles", dict(info, impl=got, model=model))
+            else:
+                # what the aborted step left on disk: PIN files, <pin>.tsv files
+                chk.count("cli-fs-after-raise", fs[0])
+                if m_fs is not None and list(fs) != m_fs:
+                    chk.corr_break("verifyfilesfs", dict(info, impl=list(fs), model=m_fs))
             continue
         if not on:
-            if got[1] != list(g["files"]):
-                chk.spec_violation("cli-verify-off", dict(info, impl=got[1], expected=list(g["files"]),
+            if got[1] != list(g["files"]) or fs[2] != list(g["stales"]):
+                chk.spec_violation("cli-verify-off", dict(info, impl=[got[1], fs[2]], expected=list(g["files"]),
                                                           clause="--verify_pin off: a file was changed"))
                 continue
         elif g.get("expected") is not None and got[1] != g["expected"]:
@@ -653,8 +921,15 @@ def eval_cli_files(chk, groups, tmpdir):
                                                         clause="after the verify step some file is not (itself if valid "
                                                                "else its conversion)"))
             continue
+        elif g.get("expected") is not None and any(t is not None for t, f, e in zip(fs[2], g["files"], g["expected"])
+                                                   if f != e):
+            chk.spec_violation("cli-temp-left", dict(info, impl=list(fs),
+                                                     clause="<pin>.tsv remains after a file was converted"))
+            continue
         if got != model:
             chk.corr_break("verifyfiles", dict(info, impl=got, model=model))
+        elif m_fs is not None and list(fs) != m_fs:
+            chk.corr_break("verifyfilesfs", dict(info, impl=list(fs), model=m_fs))
 
 
 def eval_raw_files(chk, cases, tmpdir):
@@ -671,10 +946,13 @@ def eval_raw_files(chk, cases, tmpdir):
         lines.append(req("headercols", sc, first))
         lines.append(req("toolmain", None if opt_c is None else [opt_c], None if opt_p is None else [opt_p], t, old or ""))
         lines.append(req("univnl", t))
+        lines.append(req("toolmainfs", None if opt_c is None else [opt_c], None if opt_p is None else [opt_p], t,
+                         None if old is None else [old]))
     resp = common.driver_batch(lines)
     tabs = []
+    RREQ = 4
     for k, (t, sc, sp, first, opt_c, opt_p, old) in enumerate(items):
-        m_hdr = resp[3 * k].strip()
+        m_hdr = resp[RREQ * k].strip()
         m_hdr = m_hdr if m_hdr.startswith("reject") else [int(x) for x in dec(m_hdr)]
         got_hdr = impl_header_cols(first, sc, False)
         chk.case(None, ("raw-header", first, sc))
@@ -684,24 +962,27 @@ def eval_raw_files(chk, cases, tmpdir):
         if got_hdr != m_hdr:
             chk.corr_break("headercols", dict(kind="header", header=first, sepC=sc, default_sep=False,
                                               impl=got_hdr, model=m_hdr))
-        m_read = a_str(resp[3 * k + 2].strip())
+        m_read = a_str(resp[RREQ * k + 2].strip())
         if m_read != py_univnl(t):
             chk.corr_break("univnl", dict(kind="univnl", raw=t, impl=py_univnl(t), model=m_read))
-        m_tool = _model_text(resp[3 * k + 1])
-        got = impl_tool_main(t, opt_c, opt_p, old, tmpdir, k)
+        m_tool = _model_text(resp[RREQ * k + 1])
+        tool_fs = impl_tool_main_fs(t, opt_c, opt_p, old, tmpdir, k)
+        got = tool_result(tool_fs)
         chk.case(None, ("raw-tool", t, opt_c, opt_p, old))
         chk.count("raw-tool-main", got if isinstance(got, str) else "ok")
         if isinstance(got, str):
             chk.reject("pin_to_tsv.main:" + got)
         if got != m_tool:
             chk.corr_break("toolmain", dict(kind="tool", raw=t, opt_c=opt_c, opt_p=opt_p, old=old, impl=got, model=m_tool))
+        else:
+            compare_tool_fs(chk, dict(kind="tool", raw=t, opt_c=opt_c, opt_p=opt_p, old=old), tool_fs, resp[RREQ * k + 3])
         if sc == "\t":
             tabs.append(t)
     grp, i = [], 0
     while i < len(tabs):
         n = chk.rng.choice([1, 2, 3])
         grp.append(dict(kind="files", files=tabs[i:i + n], flag=chk.rng.choice([None, None, "x", ""]), expected=None,
-                        family="raw"))
+                        family="raw", stales=[chk.rng.choice([None, None, "", "stale\n"]) for _ in tabs[i:i + n]]))
         i += n
     if grp:
         eval_cli_files(chk, grp, tmpdir)
@@ -735,15 +1016,17 @@ def eval_raw(chk, cases, family="raw"):
         lines.append(req("pin2tsv", sc, sp, t))
         lines.append(req("validtsv", sc, t))
         lines.append(req("validspec", sc, t))
+        lines.append(req("pin2tsvwrites", sc, sp, t))
     resp = common.driver_batch(lines)
     for k, (t, sc, sp) in enumerate(cases):
-        m = resp[3 * k].strip()
+        m = resp[4 * k].strip()
         m = m if m.startswith("reject") else ("ok", a_str(m))
-        mv = resp[3 * k + 1].strip()
+        mv = resp[4 * k + 1].strip()
         mv = mv if mv.startswith("reject") else a_bool(mv)
-        sv = a_bool(resp[3 * k + 2].strip())
-        got = impl_convert(t, sc, sp)
-        v = impl_valid(t, sc)
+        sv = a_bool(resp[4 * k + 2].strip())
+        style = CALL_STYLES[(len(t) + t.count("\t")) % len(CALL_STYLES)]  # a function of the case: replays exactly
+        got, writes = impl_convert_w(t, sc, sp, style)
+        v = impl_valid(t, sc, style)
         crit = valid_criterion(t, sc)
         if crit != sv and not (crit == "reject-stop" and sv is False):
             raise RuntimeError(f"validity criterion restatement mismatch on {t!r}: {crit} vs {sv}")
@@ -764,6 +1047,8 @@ def eval_raw(chk, cases, family="raw"):
             continue
         if got != m:
             chk.corr_break("pin2tsv", dict(info, impl=got, model=m))
+        else:
+            compare_writes(chk, info, got, writes, resp[4 * k + 3])
         if v != mv:
             chk.corr_break("validtsv", dict(info, impl=v, model=mv))
 
@@ -835,6 +1120,82 @@ def sweep_convert_line(chk, nmax):
     return len(cases)
 
 
+def rand_convert_line(chk, n):
+    """convert_line_pin_to_tsv called directly (G3-b): other separators than the defaults, arguments by position or by
+    keyword, fields that hold the *other* separator characters, empty and repeated fields"""
+    from mokapot.parsers.pin_to_tsv import convert_line_pin_to_tsv
+
+    rng = chk.rng
+    cases = []
+    for _ in range(n):
+        sep_c = rng.choice(["\t", "\t", ",", ";", " ", "|"])
+        sep_p = rng.choice([":", ":", ";", "|", "::", "", "\t", ", "])
+        n_col = rng.randint(1, 8)
+        idx = rng.randrange(n_col)
+        n_fields = max(1, n_col + rng.choice([-2, -1, 0, 0, 1, 1, 2, 3, 7]))
+        alphabet = [c for c in "ab:;|,\t x" if c != sep_c] + ["", "P", "P"]
+        fs = ["".join(rng.choice(alphabet) for _ in range(rng.choice([0, 1, 1, 2, 3]))) for _ in range(n_fields)]
+        cases.append((fs, idx, n_col, sep_c, sep_p, rng.choice(["kw", "pos", "default"])))
+    resp = common.driver_batch([req("convfields", sp, fs, idx, n_col) for fs, idx, n_col, sc, sp, st in cases])
+    for (fs, idx, n_col, sc, sp, st), r in zip(cases, resp):
+        model = deep(a_str, dec(r))
+        model = model if isinstance(model, list) else [model]
+        line = sc.join(fs)
+        if st == "default" and sc == "\t" and sp == ":":
+            got = convert_line_pin_to_tsv(line, idx, n_col)
+        elif st == "pos":
+            got = convert_line_pin_to_tsv(line, idx, n_col, sc, sp)
+        else:
+            got = convert_line_pin_to_tsv(line=line, idx_protein_col=idx, n_col=n_col, sep_column=sc, sep_protein=sp)
+        chk.case(None, ("convert_line_direct", tuple(fs), idx, n_col, sc, sp))
+        chk.count("convert_line_direct", ("surplus" if len(fs) > n_col else ("exact" if len(fs) == n_col else "short"))
+                  + ("" if (sc, sp) == ("\t", ":") else "+other-sep"))
+        info = dict(fields=fs, idx=idx, n_col=n_col, sepC=sc, sepP=sp, style=st)
+        if len(fs) >= n_col:
+            k = len(fs) - n_col + 1
+            want = sc.join(fs[:idx] + [sp.join(fs[idx:idx + k])] + fs[idx + k:])
+            if got != want:
+                chk.spec_violation("convert-line-spec", dict(info, impl=got, expected=want,
+                                                             clause="line != join(pre ++ [join proteins] ++ post)"))
+                continue
+        if got != sc.join(model):
+            chk.corr_break("convfields", dict(info, impl=got, model=sc.join(model)))
+    return len(cases)
+
+
+def probe_observations(chk, tmpdir):
+    """not gating — facts about the unchanged tree outside the hypotheses of the theorems, tallied in the evidence
+    (`observation:*`): inputs that `read_pin` accepts but the verify step of the CLI cannot handle"""
+    import mokapot.mokapot as M
+
+    # (1) header names are matched case-insensitively by read_pin, but exactly by parse_pin_header_columns
+    got = impl_convert("SpecId\tLabel\tScanNr\tf1\tPeptide\tproteins\na\t1\t1\t0.5\tK.A.K\tP1\tP2\n", "\t", ":")
+    chk.count("observation", "lower-case 'proteins' header with a ragged row -> " + (got if isinstance(got, str) else "converted"))
+    # (2) a Parquet PSM file (accepted by read_pin) is read as text by the verify step (on by default)
+    def stop(*a, **kw):
+        raise _StopAfterVerify()
+
+    path = os.path.join(tmpdir, "probe.parquet")
+    with open(path, "wb") as f:
+        f.write(b"PAR1\x15\x04\x15\x80\x80\xff\xfePAR1")
+    saved = M.read_pin
+    M.read_pin = stop
+    try:
+        try:
+            M.main([path, "--dest_dir", tmpdir, "--verbosity", "0"])
+            res = "no-stop"
+        except _StopAfterVerify:
+            res = "left alone"
+        except Exception as e:  # noqa: BLE001 — the kind of exception is the observation
+            res = type(e).__name__
+    finally:
+        M.read_pin = saved
+        for fn in (path, path + ".tsv"):
+            if os.path.exists(fn):
+                os.unlink(fn)
+    chk.count("observation", "binary (Parquet) PSM file through the verify step -> " + res)
+
+
 def check_isspace(chk):
     """the model's whitespace set is CPython's (str.isspace / str.strip)"""
     ws = [int(x) for x in dec(common.driver_batch(["pyspaces"])[0])]
@@ -871,7 +1232,8 @@ def minimise(chk):
             exp = None if info.get("expected") is None else [info["expected"][j] for j in idx]
             tmp = _mkdtemp()
             try:
-                eval_cli_files(sub, [dict(info, files=[info["files"][j] for j in idx], expected=exp)], tmp)
+                eval_cli_files(sub, [dict(info, files=[info["files"][j] for j in idx], expected=exp,
+                                          stales=[(info.get("stales") or [None] * len(info["files"]))[j] for j in idx])], tmp)
             except Exception:
                 return []
             finally:
@@ -945,6 +1307,8 @@ def search(chk):
         eval_raw(chk, raws)
         eval_raw_files(chk, raws[:3000], tmpdir)
         if not chk.spec_violations:
+            eval_docs(chk, gen_long_docs(rng) + gen_shape_docs(rng, quick=False), cli=True, tmpdir=tmpdir, files=1)
+        if not chk.spec_violations:
             sweep_docs(chk, 2, 2, 3, tmpdir)
             sweep_raw(chk, 6)
             sweep_convert_line(chk, 8)
@@ -962,6 +1326,7 @@ def main(chk, args):
     tmpdir = _mkdtemp()
     try:
         check_isspace(chk)
+        probe_observations(chk, tmpdir)
         docs = corpus_docs()
         docs += [gen_doc(rng, big=(i % 10 == 0)) for i in range(1500 if quick else 60000)]
         for i in range(0, len(docs), 2000):
@@ -971,6 +1336,13 @@ def main(chk, args):
                                                                                        10000, 10001, 16383, 16384])
         eval_docs(chk, longs, cli=True, tmpdir=tmpdir, files=1)
         chk.count("long_documents", len(longs))
+        shapes = gen_shape_docs(rng, quick)
+        # the big ones: direct calls and the one-file CLI step; the others also as stored files (tool, CLI groups)
+        eval_docs(chk, [d for d in shapes if len(d["rows"]) <= 3000], cli=True, tmpdir=tmpdir, files=1)
+        eval_docs(chk, [d for d in shapes if len(d["rows"]) > 3000], cli=True, tmpdir=tmpdir, files=0)
+        for d in shapes:
+            chk.count("shape_documents", d["layout"])
+        n4 = rand_convert_line(chk, 400 if quick else 20000)
         raws = [gen_raw(rng) for _ in range(6000 if quick else 200000)]
         for i in range(0, len(raws), 20000):
             eval_raw(chk, raws[i:i + 20000])
@@ -985,7 +1357,7 @@ def main(chk, args):
             n3 = sweep_convert_line(chk, 10)
         chk.extra["exhaustive_sweep"] = (
             f"{n1} documents (all layouts/rows/protein counts/DD/trailing/padding in the small scope), "
-            f"{n2} token strings, {n3} convert_line shapes")
+            f"{n2} token strings, {n3} convert_line shapes (+ {n4} random direct calls with other separators)")
     finally:
         shutil.rmtree(tmpdir, ignore_errors=True)
     minimise(chk)
@@ -1003,7 +1375,15 @@ def main(chk, args):
         "extension: text-mode reading is modelled (univNl: CRLF and lone CR read as LF) and compared with CPython's "
         "TextIOWrapper(newline=None) and with real files; documents with a carriage return INSIDE a line are outside "
         "the file theorems (model correspondence only); files are written with os.linesep == '\\n' (POSIX); the PSM "
-        "files of one CLI call have distinct paths; what is left on disk when the step raises is not compared",
+        "files of one CLI call have distinct paths",
+        "second extension: what is on disk when the tool / the CLI step raise IS compared (toolMainFs, verifyFilesFs: "
+        "output file truncated + header, PIN file untouched, partial <pin>.tsv left behind) — as model correspondence, "
+        "the statement promises nothing there; stored files above 150 000 characters: spec comparisons only for the "
+        "on-disk state; document-level validity (C19_valid_doc_iff) is promised for padding free of the column "
+        "separator and a DefaultDirection line that starts with the word — a DefaultDirection line preceded by "
+        "whitespace is dropped by the converter but not seen by is_valid_tsv (tallied as 'observation', compared with "
+        "the model's ddAccepted); the write-call granularity (one write per line) is not part of the statement: a "
+        "difference there is a correspondence break, not a spec violation",
     ]
     chk.finish(build, RULE, search=search, lc=lc,
                trusted_extra=["CPython str/list/StringIO primitives", "argparse/logging part of mokapot.mokapot.main "
@@ -1045,6 +1425,12 @@ def replay(chk, path):
         eval_raw(chk, [(info["input"], info["sepC"], info.get("sepP", ":"))])
     elif "fields" in info:
         from mokapot.parsers.pin_to_tsv import convert_line_pin_to_tsv
+        if "sepC" in info:
+            got = convert_line_pin_to_tsv(info["sepC"].join(info["fields"]), info["idx"], info["n_col"], info["sepC"],
+                                          info["sepP"])
+            want = info.get("expected", info.get("model"))
+            print("impl:", repr(got), "expected:", repr(want))
+            return 1 if got != want else 0
         got = convert_line_pin_to_tsv("\t".join(info["fields"]), idx_protein_col=info["idx"], n_col=info["n_col"])
         print("impl:", got.split("\t"), "expected:", info.get("expected"))
         return 1 if got.split("\t") != info.get("expected") else 0
